@@ -1,10 +1,13 @@
 """C09 — a stylesheet stays structurally valid under any sequence of DOM edits.
 
-model: lean/CssVerif/Model/SheetEdit.lean (+ generated kind tables Gen/C09RuleKinds.lean); theorems: Props/C09.lean
+model: lean/CssVerif/Model/SheetEdit.lean (+ generated kind tables Gen/C09RuleKinds.lean), Model/SheetBlocks.lean (declaration
+blocks and properties as heap objects), Model/SheetRaw.lean (edits around the DOM methods); theorems: Props/C09.lean
 correspondence: edit histories on a CSSStyleSheet and on the rule lists of its @media/@page rules, run on the real
 objects and on the model (drv_c09) in lock step; after EVERY operation both sides print: outcome class (returned index /
 None / exception class), sheet.encoding, the namespaces dict, the tree of rule types with the raw back pointers
-(_parentStyleSheet, _parentRule) of every rule, and the same for every rule object that is no longer in the tree.
+(_parentStyleSheet, _parentRule) of every rule, the declaration block of every rule that has one with its raw _parentRule and
+the name and raw _parent of each property, the same for every rule object that is no longer in the tree, and the replaced
+blocks / loose properties seen so far.
 oracle (implementation only, independent tables): order ranks, @charset position, kinds allowed in nested lists, parent
 links of rules / declaration blocks / properties through the public API, removed objects name no parent, returned index,
 and serialise + reparse keeps every rule.
@@ -37,10 +40,20 @@ class C09(Check):
         'a rule object is abstracted to kind, prefix/URI, encoding, used namespace URIs, nested list and the two raw '
         'back pointers; that parsing the serialisation of a well-formed rule gives a rule of the same kind and '
         'parameters is C03, here exercised by the reparse oracle only',
+        'hand-written heap model lean/CssVerif/Model/SheetBlocks.lean of declaration blocks and properties as objects '
+        '(_setStyle of the four rule classes, CSSStyleDeclaration._setCssText / setProperty / removeProperty / item '
+        'assignment, the block replacement of CSSPageRule._setCssText) and lean/CssVerif/Model/SheetRaw.lean of raw list '
+        'edits and re-insertion, tied by the same lock-step dumps (block of every rule, raw _parentRule / _parent, replaced '
+        'blocks, loose properties); that a fresh rule object comes with a block naming it is an assumption of the model '
+        'checked on every dump',
     )
     assumptions = (
-        'each history uses fresh rule objects (an object is inserted at most once; re-inserting a contained object is '
-        'not modelled)',
+        'the theorems about all operations (step_valid, dstep_valid) assume fresh objects and edits through the DOM '
+        'methods (OpOK / DOpOK); a contained block / property / rule handed in again and raw edits of the list object '
+        'are modelled as separate operations with witness theorems and are listed known findings; a history ends after '
+        'a raw list insert or a re-insertion (see docs/C09.md, limits of the model)',
+        'property names of the block operations come from a pool of four; the declarations rules are generated with '
+        'have other names and are shown as one anonymous property',
         'codecs.lookup decides which encoding names are valid (passed to the model as a flag)',
         'serialisation for the reparse check runs with ser.prefs.resolveVariables = False (otherwise @variables rules '
         'are not written at all) and keeps comments; defaults are restored afterwards',
@@ -49,7 +62,10 @@ class C09(Check):
             'deleteRule at every index} x 10 rule kinds from the empty sheet, + every ordered sheet x ordered add, + '
             'CSSRuleList arguments (allowed and forbidden kinds, sheet / @media / @page), + boundary indexes, + random walks (length '
             '60) over all operations incl. text replace, encoding, namespaces[p]=u / del, string and object arguments, '
-            'nested @media/@page lists to depth 3, raise and log-only mode. non-trivial = distinct (history prefix, '
+            'nested @media/@page lists to depth 3, raise and log-only mode, + ALL sequences of length <= 2 / 3 over 27 '
+            'operations on the declaration block of a style rule in both modes, every block operation on every kind of '
+            'rule with a style at every depth followed by the removal of the rule, shared blocks / properties, raw list '
+            'edits followed by legitimate operations, re-insertion of every rule at several indexes. non-trivial = distinct (history prefix, '
             'operation) whose operation is not an append to an empty sheet')
 
     def translate(self, ctx):
